@@ -104,6 +104,14 @@ fn base_models(rep: &Report, kinds: &[Kind]) -> Vec<ModelDef> {
     // ascii_case_insensitive is a builder option like any other: a small
     // slice of every property's universe is built with it (C11 goes deep)
     v.extend(defs("U0ci", u::u0(), kinds, true));
+    // ... and the three-pattern lists in which a pattern comes after one of
+    // its proper prefixes AND after one of its proper extensions
+    let between = |l: &u::Pats| {
+        (0..l.len()).any(|k| {
+            (0..k).any(|i| l[i].len() < l[k].len() && l[k].starts_with(&l[i])) && (0..k).any(|j| l[j].len() > l[k].len() && l[j].starts_with(&l[k]))
+        })
+    };
+    v.extend(defs("U1ci", u::u1().into_iter().filter(|l| between(l)).collect(), kinds, true));
     v
 }
 
@@ -131,6 +139,10 @@ fn run_e1(rep: &Report) -> i32 {
     if rep.property == "C03" {
         // match lists of about 2^16 entries in one state
         crate::e3::check_huge_match_lists(rep);
+    }
+    if rep.property == "C02" || rep.property == "C04" || rep.property == "C03" {
+        // thousands of dense rows (large alphabet, thousands of patterns)
+        crate::e3::check_many_dense_rows(rep);
     }
     if rep.property == "C04" || rep.property == "C03" {
         // pattern ids beyond 2^15 / 2^16 (every automaton kind must agree with
